@@ -231,7 +231,7 @@ macro_rules! slice_rforms {
     };
 }
 macro_rules! columns_forms {
-    ($e:expr, $S:ty, $R:ty, $X:ty) => {
+    ($e:expr, $S:ty, $R:ty, $X:ty, $I:ty) => {
         $e.form("Vec<X>", f::owned::<$R, Vec<$X>>)
             .form("&Vec<X>", f::by_ref::<$R, Vec<$X>>)
             .form("&[X]", f::slice::<$R, $X>)
@@ -253,6 +253,12 @@ macro_rules! columns_forms {
             .form("PushIter<vec::IntoIter<X>>", f::iter::<$R, $X>)
             .form("ReadColumns (region-backed)", f::read_item::<$S>)
             .form("ReadColumns (borrowed from owned)", f::borrowed_item::<$S>)
+            .form("PushIter<ReadSliceIter> (iterator over a slice item of another region)", |r: &mut $R, v: &Vec<$X>| {
+                let mut donor = <flatcontainer::SliceRegion<<$I as Spec>::R>>::default();
+                let _ = donor.push(v.clone());
+                let i = donor.push(v.clone());
+                r.push(flatcontainer::PushIter(donor.index(i).iter()))
+            })
     };
 }
 
@@ -762,7 +768,7 @@ pub fn visit_all<Vz: Visitor>(v: &mut Vz) {
         type S = Cols<Mirror<u8>, IO>;
         type R = <S as Spec>::R;
         let e = Entry::<S>::new(rows_u8()).large(bytes_large()[..1].to_vec());
-        let e = columns_forms!(e, S, R, u8);
+        let e = columns_forms!(e, S, R, u8, Mirror<u8>);
         v.visit(e.cloneable().serde().debug().flags("dense plain"));
     }
     {
@@ -770,7 +776,7 @@ pub fn visit_all<Vz: Visitor>(v: &mut Vz) {
         type R = <S as Spec>::R;
         let vals: Vec<Vec<Vec<u8>>> = vec![vec![], vec![vec![]], vec![vec![1], vec![]], vec![vec![1, 2], vec![3], vec![]]];
         let e = Entry::<S>::new(vals);
-        let e = columns_forms!(e, S, R, Vec<u8>);
+        let e = columns_forms!(e, S, R, Vec<u8>, Owned<u8>);
         v.visit(e.cloneable().serde().debug().flags("dense plain"));
     }
     macro_rules! cols_consec_string {
@@ -778,7 +784,7 @@ pub fn visit_all<Vz: Visitor>(v: &mut Vz) {
             type S = Cols<Consec<Str<Owned<u8>>, $O>, $O>;
             type R = <S as Spec>::R;
             let e = Entry::<S>::new(rows_str()).large(rows_str_large());
-            let e = columns_forms!(e, S, R, String);
+            let e = columns_forms!(e, S, R, String, Consec<Str<Owned<u8>>, $O>);
             v.visit(
                 e.form("Vec<&str>", f::vec_of_str::<R>)
                     .form("&[&str]", f::slice_of_str::<R>)
@@ -815,7 +821,7 @@ pub fn visit_all<Vz: Visitor>(v: &mut Vz) {
         type R = <S as Spec>::R;
         let vals: Vec<Vec<Vec<u8>>> = vec![vec![], vec![vec![]], vec![vec![1], vec![]], vec![vec![1, 2], vec![3], vec![]]];
         let e = Entry::<S>::new(vals);
-        let e = columns_forms!(e, S, R, Vec<u8>);
+        let e = columns_forms!(e, S, R, Vec<u8>, Slice<Mirror<u8>, Vec<u8>>);
         v.visit(e.cloneable().serde().debug().flags("dense plain"));
     }
     {
@@ -966,6 +972,9 @@ pub fn visit_stacks<Vz: StackVisitor>(v: &mut Vz) {
         full!(Slice<Str<Owned<u8>>, Vec<Pair>>, Vec<Pair>, "Vec<Index>", 1).reserving(),
     );
     v.visit(entry_of::<Collapse<Str<Owned<u8>>>>(), full!(Collapse<Str<Owned<u8>>>, Vec<Pair>, "Vec<Index>", 1));
+    // the only caller of IndexContainer::extend is SliceRegion: non-default containers below a FlatStack
+    v.visit(entry_of::<Slice<Mirror<usize>, IO>>(), full!(Slice<Mirror<usize>, IO>, Vec<Pair>, "Vec<Index>", 1));
+    v.visit(entry_of::<Slice<Mirror<usize>, IL>>(), full!(Slice<Mirror<usize>, IL>, Vec<Pair>, "Vec<Index>", 1));
     v.visit(entry_of::<Opt<Str<Owned<u8>>>>(), full!(Opt<Str<Owned<u8>>>, Vec<Option<Pair>>, "Vec<Index>", 1).reserving());
     v.visit(
         entry_of::<Res<Str<Owned<u8>>, Mirror<u16>>>(),
